@@ -1667,7 +1667,7 @@ def cases(tier, seed):
             for endian in ("little", "big"):
                 # the slot is rotated per chunk so that a large layout is not handled by the same shard every time
                 yield {"kind": "real", "slot": (j + 5 * chunk) % slots, "of": slots, "endian": endian, "chunk": chunk, "seqs": 5 if thorough else 1}
-    n_syn, per = (1600, 20) if thorough else (96, 14)
+    n_syn, per = (1600, 20) if thorough else (220, 14)
     for k in range(n_syn):
         yield {"kind": "synthetic", "k": k, "seqs": per}
 
